@@ -556,6 +556,67 @@ func runWHChild(c *Ctx, rule string) {
 				}
 			}
 		}
+		// what an option set stays set: after the options ran, the constructor may fill an option-settable field only when
+		// it is still unset (a child writer must keep the parent's metadata object, or its pages miss from the footer)
+		{
+			var optCalls []ssa.Instruction
+			for _, b := range inner.Blocks {
+				for _, ins := range b.Instrs {
+					if call, ok := ins.(*ssa.Call); ok && !call.Call.IsInvoke() && call.Call.StaticCallee() == nil {
+						if _, isB := call.Call.Value.(*ssa.Builtin); !isB {
+							optCalls = append(optCalls, call)
+						}
+					}
+				}
+			}
+			key := short + ".newParquetWriter keeps option values"
+			var bad []string
+			for _, b := range inner.Blocks {
+				after := false
+				for _, oc := range optCalls {
+					if oc.Block() == b {
+						after = true
+					}
+					for _, x := range reachableBlocks(oc.Block()) {
+						if x == b {
+							after = true
+						}
+					}
+				}
+				if !after {
+					continue
+				}
+				for _, ins := range b.Instrs {
+					st, ok := ins.(*ssa.Store)
+					if !ok {
+						continue
+					}
+					f := fieldOf(st.Addr)
+					if f == nil || !settable[f] {
+						continue
+					}
+					unset := guarded(b, func(iff *ssa.If, truth bool) bool {
+						bo, ok := iff.Cond.(*ssa.BinOp)
+						if !ok || fieldOfLoad(bo.X) != f {
+							return false
+						}
+						zero := isNilConst(bo.Y) || constIs(bo.Y, 0)
+						return zero && ((bo.Op == token.EQL && truth) || (bo.Op == token.NEQ && !truth))
+					}, 0)
+					if !unset {
+						bad = append(bad, fmt.Sprintf("%s is overwritten at %s after the options ran, whether or not an option had set it", f.Name(), u.Pos(st.Pos())))
+					}
+				}
+			}
+			r.count(rule+"/constructors", 1)
+			if len(optCalls) == 0 {
+				r.undecided(rule, key, u.Pos(inner.Pos()), "newParquetWriter does not apply its options")
+			} else if len(bad) > 0 {
+				r.bad(rule, key, u.Pos(inner.Pos()), strings.Join(bad, "; ")+": the writer created for the next page does not keep what it inherits (its pages are accounted in a metadata object that never reaches the footer)")
+			} else {
+				r.ok(rule, key, u.Pos(inner.Pos()), "after the options ran, option-settable fields are only filled when still unset")
+			}
+		}
 		// the creation site in Add
 		// (in Add itself, or in a method Add calls on the same receiver, e.g. a lazily-creating nextPage())
 		var site *ssa.Call
@@ -768,6 +829,62 @@ func runWHGroups(c *Ctx, rule string) {
 			n++
 			r.count(rule+"/numrows-stores", 1)
 			key := fmt.Sprintf("%s store to RowGroup.NumRows", u.FnName(st.Parent()))
+			// the value: the per-row-group record counter — a Metadata field advanced by one per record (on the Add path), restarted
+			// when a row group is started — assigned, not accumulated (it is stored again for every page of the group)
+			if !fromAdd[st.Parent()] {
+				cf := fieldOfLoad(stripConvert(st.Val))
+				k2 := key + " value"
+				switch {
+				case cf == nil:
+					r.bad(rule, k2, u.Pos(st.Pos()), "RowGroup.NumRows is set to "+symExpr(st.Val, 0)+", want the plain per-row-group record counter (the store runs once per page: anything accumulated counts the records once per page)")
+				default:
+					incOK, resetOK := false, false
+					var why []string
+					cc, co := storesTo(u, cf)
+					for _, s2 := range append(cc, co...) {
+						if u.pkgPathOf(s2.Parent()) != rtPath {
+							continue
+						}
+						bo, isB := s2.Val.(*ssa.BinOp)
+						switch {
+						case isB && bo.Op == token.ADD && constIs(bo.Y, 1) && fieldOfLoad(bo.X) == cf:
+							if fromAdd[s2.Parent()] {
+								incOK = true
+							} else {
+								why = append(why, cf.Name()+" is advanced in "+u.FnName(s2.Parent())+", which Add does not reach")
+							}
+						case constIs(s2.Val, 0):
+							// restarted where a row group is opened: the function also appends to the list of row groups
+							opens := false
+							for _, b := range s2.Parent().Blocks {
+								for _, ins := range b.Instrs {
+									if s3, ok := ins.(*ssa.Store); ok {
+										if f3 := fieldOf(s3.Addr); f3 != nil && f3.Name() == "rowGroups" {
+											opens = true
+										}
+									}
+								}
+							}
+							if opens {
+								resetOK = true
+							}
+						default:
+							why = append(why, cf.Name()+" is set to "+symExpr(s2.Val, 0)+" in "+u.FnName(s2.Parent()))
+						}
+					}
+					if !incOK {
+						why = append(why, cf.Name()+" is not advanced by one per record on the Add path")
+					}
+					if !resetOK {
+						why = append(why, cf.Name()+" is not restarted at 0 where a row group is opened: the second row group would report the records of both")
+					}
+					if len(why) > 0 {
+						r.bad(rule, k2, u.Pos(st.Pos()), strings.Join(why, "; "))
+					} else {
+						r.ok(rule, k2, u.Pos(st.Pos()), "NumRows = "+cf.Name()+" (one per record, restarted per row group)")
+					}
+				}
+			}
 			if fromAdd[st.Parent()] {
 				r.bad(rule, key, u.Pos(st.Pos()), "RowGroup.NumRows — the quantity Footer uses to decide which row groups were written and sums into the file's row count — is advanced on the Add path ("+u.FnName(st.Parent())+"): records still pending at Close make the trailing, never written row group non-empty, so the footer lists a row group without column chunks and counts rows that are not in the file")
 			} else {
